@@ -5,6 +5,8 @@ table's common fields and every non-table entity must equal the default mode's; 
 turn a successful parse into an error; dialect fields at top level only in the modes of a table
 *frozen here* from the pinned output/dialects.py + README (not read from the code under test).
 """
+import os
+
 from vf.gen import scripts as GS
 from vf.gen.corpus import load as load_corpus
 from vf.run import MODES, parse
@@ -18,7 +20,7 @@ RULE = ("cases = (script, mode [, group_by_type, normalize_names]): seeded rando
         "schemas, SET) and every regression-corpus script, each run in all 15 output modes (thorough: x group_by_type x "
         "normalize_names) and compared with the default mode. Non-trivial = the script yields at least one table in default mode; "
         "distinct = distinct (script, flags)."
-        " Added after seeded defects: every second script comes from the shared pool of all generators (vf.gen.sources), project-qualified names mixed with two-part references, one parser object asked for a sequence of modes.") % len(GS.all_kinds())
+        " Added after seeded defects: every second script comes from the shared pool of all generators (vf.gen.sources), project-qualified names mixed with two-part references, one parser object asked for a sequence of modes, every 10th script also with dump=True in every mode (same return value).") % len(GS.all_kinds())
 ASSUMPTIONS = ["tolerated mode-specific presentation: dataset for schema (bigquery), 'clustered' inside mssql index entries, per-column encode (redshift) / encrypt (oracle) keys wherever a column dict appears",
                "the field -> modes table below is frozen from the pinned tree"]
 MIN_EVENTS = {"run_return": 500}
@@ -172,6 +174,32 @@ def check_case(ctx, case):
             if r[0] != want[0] or (r[0] == "ok" and r[1] != want[1]):
                 ctx.violation("mode_result_depends_on_modes_asked_before", dict(case, modes=seq), {"mode": m, "sequence": seq, "observed": short(r, 200), "fresh_object": short(want, 200)})
                 break
+    # asking for a dump does not change what a mode returns (run(dump=True, dump_path=...) without a file_path, per-table files)
+    if n % 10 == 1:
+        import shutil
+        import tempfile
+        d = tempfile.mkdtemp(prefix="vf_c10d_")
+        try:
+            base_dump = parse(ddl, ctor, dump=True, dump_path=os.path.join(d, "_default"), **kw)
+            if base_dump[0] != "ok":
+                # run(dump=True) without file_path writes one file per *table* and raises KeyError('table_name') on the pinned tree as soon as
+                # the script holds any other entity - in the default mode too, so it is not a mode's doing and no property claims it
+                ctx.obs["dump_raises_in_default_mode_skipped"] += 1
+                modes_d = []
+            else:
+                modes_d = list(modes)
+            for mode in modes_d:
+                want = b if mode == "sql" else fresh.get(mode)
+                if want is None or want[0] != "ok":
+                    continue
+                r = parse(ddl, ctor, output_mode=mode, dump=True, dump_path=os.path.join(d, mode), **kw)
+                ctx.evaluated()
+                ctx.obs["mode_runs_with_dump"] += 1
+                if r[0] != "ok" or r[1] != want[1]:
+                    ctx.violation("dump_request_changes_mode_result", dict(case, modes=[mode]), {"mode": mode, "with_dump": short(r, 200), "without": short(want, 200)})
+                    break
+        finally:
+            shutil.rmtree(d, ignore_errors=True)
     # default mode itself must not show dialect fields at top level
     for kind, detail in compare_mode(base, base, "sql")[:2]:
         ctx.violation(kind, dict(case, modes=[]), detail)
